@@ -234,6 +234,23 @@ Definition integrate_named (m : method) (f : T -> res T) (a b : T) (p : Z) : res
     | _ => Exit
     end.
 
+(** ** An integrand that is itself defined through an integral (a call of Integrate made while Integrate is
+    evaluating its integrand: the library is re-entered, possibly with another method name and another
+    method_parameter):
+<<
+	auto g = [&](double x) {
+		auto h = [&](double t) { return inner(x, t); };
+		return outer(x, Integrate(h, lo(x), hi(x), inner_method, inner_parameter)); };
+	Integrate(g, a, b, method, method_parameter);
+>>
+    The library keeps no state between or during calls, so the inner call is an ordinary call. *)
+Definition reentrant_integrand (mi : method) (q : Z) (outer inner : T -> T -> T) (lo hi : T -> T) : T -> res T :=
+  fun x => let* i := integrate_named mi (fun t => Ok (inner x t)) (lo x) (hi x) q in Ok (outer x i).
+
+Definition integrate_reentrant (m : method) (p : Z) (mi : method) (q : Z) (outer inner : T -> T -> T) (lo hi : T -> T)
+    (a b : T) : res T :=
+  integrate_named m (reentrant_integrand mi q outer inner lo hi) a b p.
+
 (** ** Section 2.1: nesting.  [J] is the one-dimensional integrator, [nest_2d]/[nest_3d] the lambdas:
 <<
 	auto integrand_x = [&func, y1, y2, method, method_parameter](double x) {
